@@ -221,3 +221,52 @@ package collector
 //@            cp.templatesMap[be32(packetBuffer.buf, 12)][be16(packetBuffer.buf, 20)].ies,
 //@            cp.templatesMap[be32(packetBuffer.buf, 12)][be16(packetBuffer.buf, 20)].expiryTime,
 //@            cp.templatesMap[be32(packetBuffer.buf, 12)][be16(packetBuffer.buf, 20)].expiryTimer
+
+// ---------------------------------------------------------------------------
+// TCP framing (C11): one message per iteration, cut where the header says, nothing after the first failure
+// ---------------------------------------------------------------------------
+
+//@ func getMessageLength(reader) (r, err)
+//@   requires rd:  reader != nil
+//@   ensures  len: err == nil ==> len(reader.stream) >= 4 && r == be16(reader.stream, 2)
+//@   ensures  keep: reader.stream == old(reader.stream)
+//@   noeffect
+//@   replay tcpframe
+
+//@ func (cp *CollectingProcess) handleTCPClient$3() ()
+//@   requires cp:   *cp != nil && !(*cp).mutex.held && !(*cp).mutex.rheld && storeShape(*cp) && storeWF(*cp) && !isnil((*cp).clock) && (*cp).numExtraElements >= 0 && (*cp).messageChan != nil
+//@   requires rd:   *reader != nil && lastIndex(*address, ":") >= 0 && regInv()
+//@   replay tcpframe
+//@   ensures  lock: !(*cp).mutex.held && !(*cp).mutex.rheld
+//@   callpre (*CollectingProcess).decodePacket whole: len(packetBuffer.buf) == length && (forall k in [0, length): packetBuffer.buf[k] == (*reader).stream[k - length])
+//@   modifies *
+//@   loop 1 invariant ok:   *reader != nil && *reader == old(*reader) && *cp == old(*cp) && *address == old(*address) && arr((*reader).stream) == old(arr((*reader).stream))
+//@   loop 1 invariant cp:   !(*cp).mutex.held && !(*cp).mutex.rheld && storeShape(*cp) && storeWF(*cp) && !isnil((*cp).clock) && (*cp).numExtraElements >= 0 && (*cp).messageChan != nil
+//@   // every completed iteration delivered exactly one message: an iteration whose decodePacket fails never reaches the back edge
+//@   loop 1 step deliver:   chanCount((*cp).messageChan) == prev(chanCount((*cp).messageChan)) + 1
+//@   loop 1 step frame:     off((*reader).stream) == prev(off((*reader).stream)) + prev(be16((*reader).stream, 2)) && len((*reader).stream) == prev(len((*reader).stream)) - prev(be16((*reader).stream, 2))
+
+// ---------------------------------------------------------------------------
+// Encrypted transports (C18): server configurations, and no plaintext listener when encryption is configured
+// ---------------------------------------------------------------------------
+
+//@ func (cp *CollectingProcess) createServerConfig() (r, err)
+//@   requires cp:   cp != nil
+//@   ensures  min:  err == nil ==> r != nil && fresh(r) && r.MinVersion >= 771 && len(r.Certificates) == 1 && !r.InsecureSkipVerify
+//@   ensures  noca: err == nil && isnil(cp.caCert) ==> r.ClientAuth == tls.NoClientCert
+//@   ensures  ca:   err == nil && !isnil(cp.caCert) ==> r.ClientAuth == tls.RequireAndVerifyClientCert && r.ClientCAs != nil && r.ClientCAs.filled && r.ClientCAs.pem == cp.caCert
+//@   noeffect
+//@   replay tlscfg-server
+
+//@ func (cp *CollectingProcess) startTCPServer() ()
+//@   requires cp:   cp != nil && !cp.mutex.held && !cp.mutex.rheld
+//@   callpre net.Listen noplain: !cp.isEncrypted
+//@   callpre crypto/tls.Listen secure: cp.isEncrypted && config != nil && config.MinVersion >= 771 && len(config.Certificates) == 1
+//@           && (!isnil(cp.caCert) ==> config.ClientAuth == tls.RequireAndVerifyClientCert && config.ClientCAs != nil && config.ClientCAs.filled && config.ClientCAs.pem == cp.caCert)
+//@   modifies *
+
+//@ func (cp *CollectingProcess) startUDPServer() ()
+//@   requires cp:   cp != nil && !cp.mutex.held && !cp.mutex.rheld
+//@   callpre net.ListenUDP noplain: !cp.isEncrypted
+//@   callpre github.com/pion/dtls/v2.Listen secure: cp.isEncrypted && config != nil && len(config.Certificates) == 1 && config.ExtendedMasterSecret == dtls.RequireExtendedMasterSecret && !config.InsecureSkipVerify
+//@   modifies *
